@@ -141,7 +141,7 @@ def judge(ctx, obs, chunk=1500):
 def run(ctx):
     q = ctx.quick
     w = dict(workers=8, timeout=1500)
-    mc = [("MC_Cors", "MC_Cors.cfg" if q else "MC_Cors_deep.cfg", dict(w, coverage=not q)),
+    mc = [("MC_Cors", "MC_Cors.cfg" if q else "MC_Cors_deep.cfg", dict(w)),
           ("MC_Cors", "MC_Cors_mount.cfg" if q else "MC_Cors_mount_deep.cfg", dict(w)),
           ("MC_Cors", "MC_Cors_repair_flat.cfg", dict(w, name="mc-repair-flat")),
           ("MC_Cors", "MC_Cors_repair.cfg", dict(w, name="mc-repair")),
@@ -149,12 +149,12 @@ def run(ctx):
     if q:
         mc = [m for m in mc if m[1] != "MC_Cors_repair.cfg"]
     else:
-        mc.append(("MC_Cors", "MC_Cors_sim.cfg", dict(workers=1, simulate="num=400", depth=16, name="mc-sim", timeout=1500)))
+        mc.append(("MC_Cors", "MC_Cors_sim.cfg", dict(workers=1, simulate="num=80", depth=16, name="mc-sim", timeout=1500)))
     gen = [("CorsGen", "Gen_Cors.cfg" if q else "Gen_Cors_deep.cfg", dict(workers=6, timeout=1500)),
            ("CorsGen", "Gen_Cors_mount.cfg" if q else "Gen_Cors_mount_deep.cfg", dict(workers=6, timeout=1500)),
            ("CorsGen", "Gen_Cors_pol.cfg" if q else "Gen_Cors_pol_deep.cfg", dict(workers=4, timeout=1500)),
-           ("CorsGen", "Gen_Cors_sim.cfg", dict(workers=1, simulate="num=%d" % (25 if q else 600), depth=14, name="gen-sim", timeout=1500))]
-    pipeline(ctx, mc, gen, random_n=300 if q else 6000)
+           ("CorsGen", "Gen_Cors_sim.cfg", dict(workers=1, simulate="num=%d" % (60 if q else 300), depth=14, name="gen-sim", timeout=1500))]
+    pipeline(ctx, mc, gen, random_n=300 if q else 4000)
     return finish(ctx, rule=RULE, exhaustive=True,
                   assumptions=["the CORS fang is a fang of the served (top) application: Ohkami::with((CORS::new(..)..,), ..)",
                                "applications the framework refuses to construct (conflicting registrations) are outside the quantifier; "
